@@ -14,7 +14,7 @@ P = {
  "C01": (True, "constant propagation of derivation labels into a per-package published table, pinned wire constants and port ranges compared across the station/client sibling implementations, dominance-ordered draw sequences from each derivation stream, version-dispatch guard dominance and argument value-flow (go/ssa, go/types)",
          "Decides the structural ingredients of the derivation, for every input: every HKDF salt/info and HMAC label in the derivation packages is a compile-time string and equals the published table (so client and station share it, and it cannot move on both sides together); tags are keyed by the shared secret; version thresholds 1/2/3/4 and every private copy, the 104-byte legacy pre-draw (station only, gated by libver<4), the 16-byte seed, per-transport port ranges and fixed ports (prefix table included, client table derived entry-by-entry from the station table) have their published values on both sides; "
          "each phantom/port label has one derivation site, reached by both the station selector and the client entry with their own seed, subnet group chosen before the family filter, version dispatch exactly at the core thresholds; station and registration server feed Select / port selection from the registration's own seed, generation, version, family; the draw order from every derivation stream (shared keys, obfs4 keys, DTLS certificates and their roles) is the published one and the transport stream is consumed once; the 443 fallback holds for libver<3 or non-randomising subnets. "
-         "These are necessary conditions: the big-integer arithmetic of the weighted subnet / address choice, the legacy varint and math-rand selectors, and byte-level equality of outputs are NOT decided (they need execution).",
+         "These are necessary conditions: the big-integer arithmetic of the weighted subnet / address choice, the legacy varint and math-rand selectors, and byte-level equality of outputs are NOT decided (they need execution). Also decided: the keys (and with them the stateful transport stream) of one GenSharedKeys call go to at most one registration, and the selection code reachable from both entry points touches no process-global state and never writes into its inputs.",
          "4/C01"),
  "C02": (True, "guard dominance on the visibility filter and on each transport's success return, value-flow of the phantom argument through helper call sites, who-may-write (Valid), constant-label table (go/ssa)",
          "Decides for every input and history: connection matching can only see registrations whose own Valid flag is set, taken from the per-phantom map of the connection's original destination (through every helper, by value-flow of the phantom parameter from the socket's original destination); "
@@ -64,7 +64,7 @@ P = {
  "C19": (True, "error-edge reachability (errors propagate, never skip), effect reachability over the reload path, guard dominance of the swaps, contradiction rule for optional fields and integer-division scan over the printers (go/ssa)",
          "Decides for every accepted configuration: in the list loader every parse failure leads, on its error edge, only to a non-nil error return (no entry is dropped silently) and ParseConfig returns a configuration only if the lists parsed; nothing reachable from a reload (ParseConfig, OnReload, selector and GeoIP loaders) calls a panicking or exiting API; "
          "OnReload is called only when the new configuration loaded and replaces the phantom selector only when the new one loaded; for every statistics module registered in main (computed), code reachable from PrintAndReset has no integer division by a run-time value and every call through an optional interface field (nil-checked elsewhere) is dominated by a nil test of that same field. "
-         "The full configuration space, TOML decoding and the field-wise copy in OnReload are not decided.",
+         "The full configuration space, TOML decoding and the field-wise copy in OnReload are not decided. Also decided: OnReload takes over every parsed policy field from the field of the same name of the new configuration and never re-parses into the live object; the LRU constructor gets a positive size on every path (a nil *lruCache can never sit in an optional cache field).",
          "4/C19"),
  "C20": (True, "who-may-write over file-creating APIs, guard dominance and must-pass ordering (marshal -> write temp -> rename), value-flow of the rollback, lockset (go/ssa)",
          "Decides for every crash point and write fault: the only file the client library ever creates is a freshly (randomly) named temporary in the ClientConf's own directory; the final name is only ever the destination of a rename, reached only after Marshal and the write both succeeded, and the renamed file is the one written; "
@@ -88,7 +88,7 @@ P = {
  "C09": (True, "lockset guarded-by with helper summaries, channel-operation shape rules, lock-order graph, blocking reachability (go/ssa)",
          "Decides for every schedule: the registration maps/flags are only touched under the registration mutex (write lock for writes), the New announcement has a single locked call site dominated by !Valid with Valid=true stored first, "
          "hand-off sends are non-blocking with counted drops and a fixed worker pool, every blocking wait in the pipeline includes the stop signal, lock order is acyclic and nothing blocking runs under the registration lock except the reviewed Redis publish. "
-         "These are necessary conditions for race-freedom, announce-once, non-stalling overload and bounded shutdown; serializability and lost updates are not decided. Also decided: the registration lock is never acquired while it may already be held (directly or through a callee: a second RLock behind a waiting writer deadlocks), and no function hands out a guarded tracking map itself.",
+         "These are necessary conditions for race-freedom, announce-once, non-stalling overload and bounded shutdown; serializability and lost updates are not decided. Also decided: the registration lock is never acquired while it may already be held (directly or through a callee: a second RLock behind a waiting writer deadlocks), and no function hands out a guarded tracking map itself. Every Lock/RLock of the station library is released on all paths.",
          "4/C09"),
  "C10": (True, "value-flow of the message literals, constant pairing, interface-implementation enumeration (GetProto), cross-language contract check against rules extracted at token level from src/sessions.rs (go/ssa + text extraction)",
          "Decides for every registration: each announcement field is taken from the designated registration field / parameter; New is paired with the unused lifetime and Update with the active lifetime, the same variables the station expires by; every deployed transport's protocol is a TCP/UDP constant and PhantomProto is written only from it; "
@@ -98,7 +98,7 @@ P = {
  "C11": (True, "nil-guard dominance for optional protobuf sub-messages (getter/field path normalisation, assign-if-nil and initialised-on-all-paths idioms, entry contracts), length-guard dominance on first-flight slices, reachability + reviewed table for the panic surface, loop-counter bound (go/ssa)",
          "Decides for every external input: no field of an optional protobuf sub-message reached from external bytes is addressed without a dominating non-nil test of that same access path (or a must-pass initialisation), and the payload contract of the registration constructor holds at its call sites; constant-bound slices of the first-flight buffer are dominated by a sufficient length test; "
          "over all code reachable from the external entry points (ZMQ ingest, connection handler and every transport/override implementation, HTTP and DNS handlers) every unchecked type assertion, explicit panic, exit/Fatal/Must call and integer division by a run-time value is in a reviewed table with a reason; the DNS name parser's pointer jump is bounded by an incremented loop counter. "
-         "Panics inside dependencies, resource exhaustion, and hangs other than the pointer loop are not decided; the compiler's unproven-bounds list (check_bce) is not used (see DESIGN 7.3).",
+         "Panics inside dependencies, resource exhaustion, and hangs other than the pointer loop are not decided; the compiler's unproven-bounds list (check_bce) is not used (see DESIGN 7.3). Also decided: variable slice bounds on the externally reachable set follow from a dominating comparison (linear reasoning over lengths and offsets; reader contract; min; reviewed table for three invariant-based accesses), and every function on that set releases the locks it takes on all paths (never hangs).",
          "4/C11"),
  "C12": (True, "must-alias (must-equal set) dataflow for the response object, must-pass/guard dominance, who-may-read, loop-exit shape rules (go/ssa)",
          "Decides: client-supplied response cleared on every path into processing; the forwarded wrapper is rebuilt from a fresh object with signature fields only from the registrar's own Marshal/Sign; at every successful return the pointer handed to the client is provably the object attached to the forwarded wrapper (must-equal analysis with Override modelled as havoc); "
